@@ -166,6 +166,11 @@ def parseStmt (toks : List String) : Option Stmt :=
   | ["count"] => some .count
   | ["keys"] => some .keys
   | ["expire"] => some .expire
+  | ["sopen"] => some .sopen
+  | ["sopeno"] => some .sopen
+  | ["snext"] => some .snext
+  | ["sdropg"] => some .sdropg
+  | ["sclose"] => some .sclose
   | _ => none
 
 def parseProg (s : String) : Option (List Stmt) :=
@@ -180,6 +185,10 @@ def eventStr (sorted : Bool) : Event → String
   | .keys o => "keys=" ++ outStr sorted o
   | .ev cands => "ev=" ++ pairsStr cands
   | .exp gs => "exp=" ++ pairsStr gs
+  | .sopen => "sopen"
+  | .item k => "item=" ++ toString k
+  | .snext ended => if ended then "snext=end" else "snext=pending"
+  | .sclosed => "sclosed"
   | .skip => "skip"
   | .fail o => outStr sorted o
 
